@@ -147,6 +147,8 @@ class Session:
             return lambda: self.release_index(idx)
         if kind == "put":
             return lambda: self.d[ev[1]].put(ev[2])
+        if kind == "puts":  # several updates back-to-back from one thread (a glitch)
+            return lambda: [self.d[ev[1]].put(v) for v in ev[2:]]
         if kind == "finish":
             return lambda: self.finish_status(ev[1], ev[2] if len(ev) > 2 else True)
         if kind == "call":
